@@ -37,12 +37,12 @@ THEOREMS = ["Time.C13_gmt", "Time.C13_local", "Time.C13_rejects", "Time.C13_frac
             "Time.C13_recalc_points", "Time.C13_civil_roundtrip", "Time.C13_F8_stale", "Time.C13_pctpct_miswritten",
             "Time.C13_dupfrac_unrepaired_accepted", "Time.C13_offgrid_transition_stale",
             "Obligations.time_extraction_complete", "Obligations.time_modifiers", "Obligations.time_patch_table", "Obligations.time_split_lowest",
-            "Obligations.time_patch_args", "Obligations.time_rewrites", "Obligations.time_rejected",
+            "Obligations.time_patch_args", "Obligations.time_rewrites", "Obligations.time_replace_loop", "Obligations.time_rejected",
             "Obligations.time_noon_midnight", "Obligations.time_hms", "Obligations.time_cached_seconds",
             "Obligations.time_conditions", "Obligations.time_frac_table", "Obligations.time_frac_ctor",
             "Obligations.time_strftime_buffer", "Obligations.time_local_period", "Obligations.time_rejects_repeated", "Obligations.C13_rejects_extracted", "Obligations.model_tables_coherent",
             "Obligations.model_patch_text", "Obligations.C13_extracted",
-            "Time.SFT.step_spec", "Time.TF.step_spec", "Time.TF.init_spec", "Time.charsOf_lex", "Time.lex_charsOf", "Time.splitOnceCpp_eq"]
+            "Time.SFT.step_spec", "Time.TF.step_spec", "Time.TF.init_spec", "Time.charsOf_lex", "Time.lex_charsOf", "Time.splitOnceCpp_eq", "Time.replaceAllCpp_eq"]
 MODULES = ["QuillModel.Props.C13"]
 OBLIG = ["QuillModel.Obligations.Time"]
 
